@@ -356,7 +356,8 @@ SPECS["C07"] = CheckSpec(
          "stop/start, transport error}, stop requests during retry sleeps; interval settings (1,1,600) (3,2,600) "
          "(700,1,600) and compressed-time (3,2,8) (2,1,5); the monitor keeps its own time of the last completed "
          "exchange and checks at every open() that expired data are gone and the first query is a Reset Query, that "
-         "nothing of the socket remains after the real rtr_stop returned, and that another source's records are intact",
+         "nothing of the socket remains after the real rtr_stop returned, that in both cases the socket's last_update "
+         "(0 = holds no data, what the group manager reads) is cleared, and that another source's records are intact",
     assumptions=_ENVX_ASSUME,
     counters_map={"distinct": ["states"]},
     level_text="Explicit-state model checking of the real FSM with the simulated clock as part of the state: every "
@@ -681,7 +682,7 @@ def c15_jobs(tier, repo):
                 "groups[%s] prefs[%s] depth<=%d %s" % (g, p, d, " ".join(x))) for g, p, d, x in cfgs]
     # conformance of the socket-lifecycle relation with the real FSM
     jobs.append(Job("envx", ENVX_BUILD, ["--prop=C15R", "--max-depth=%d" % (7 if q else 9)],
-                    "conformance: every state change of the real FSM is in the relation R"))
+                    "conformance: every state change of the real FSM is in the relation R; last_update is set when ESTABLISHED is reported and cleared by expiry and stop"))
     return jobs
 
 
